@@ -1,0 +1,74 @@
+//go:build verif
+
+package bitcoin_reader
+
+import (
+	"context"
+	"fmt"
+	"net"
+	"sort"
+	"strings"
+
+	"github.com/tokenized/threads"
+)
+
+// This file only exists under the "verif" build tag. It gives the verification machinery in
+// /verif entry points to run a node over a caller supplied connection and to inspect state. It
+// adds no behaviour to normal builds.
+
+// VerifRun runs the node over the supplied connection instead of dialing the node's address.
+func (n *BitcoinNode) VerifRun(ctx context.Context, connection net.Conn,
+	interrupt <-chan interface{}) error {
+
+	if err := n.mockConnect(ctx, connection); err != nil {
+		return err
+	}
+
+	return n.run(ctx, interrupt)
+}
+
+// VerifDump returns a canonical description of the node's protocol state.
+func (n *BitcoinNode) VerifDump() string {
+	n.Lock()
+	defer n.Unlock()
+
+	var handlers []string
+	for command, handler := range n.handlers {
+		if handler != nil {
+			handlers = append(handlers, command)
+		}
+	}
+	sort.Strings(handlers)
+
+	outgoing := -1
+	n.outgoingMsgChannel.lock.Lock()
+	if n.outgoingMsgChannel.open {
+		outgoing = len(n.outgoingMsgChannel.Channel)
+	}
+	n.outgoingMsgChannel.lock.Unlock()
+
+	return fmt.Sprintf("handshake=%t ready=%t stopped=%t verified=%t handlers=%s handshakeQueue=%d "+
+		"protoconf=%d blockRequest=%t blockHandler=%t blockReader=%t busy=%t outgoing=%d lastHeader=%t",
+		n.handshakeIsComplete.Load().(bool), n.isReady.Load().(bool), n.isStopped.Load().(bool),
+		n.verified.Load().(bool), strings.Join(handlers, ","), len(n.handshakeChannel),
+		n.protoconfCount, n.blockRequest != nil, n.blockHandler != nil, n.blockReader != nil,
+		n.requestTime != nil, outgoing, n.lastHeaderHash != nil)
+}
+
+// VerifAddNode registers a node with the manager the way Find/Scan do after connecting, without
+// starting a thread for it (the caller runs the node itself).
+func (m *NodeManager) VerifAddNode(node *BitcoinNode) {
+	m.Lock()
+	defer m.Unlock()
+
+	m.nodes = append(m.nodes, &nodeThread{
+		node:   node,
+		thread: threads.NewInterruptableThread("verif node", node.Run),
+		id:     node.ID(),
+	})
+}
+
+// VerifMarkStartupDelayComplete ends the startup delay without waiting for it.
+func (m *NodeManager) VerifMarkStartupDelayComplete(ctx context.Context) {
+	m.markStartupDelayComplete(ctx)
+}
